@@ -115,7 +115,10 @@ func (f *Filter) Filter(query *linear.Seq, selfAlign, complement bool, morass *m
 		return err
 	}
 
-	diagFrom := f.diagIndex(f.target.Len()-1, query.Len()-1) - tubeWidth
+	// The last k-mer is at query.Len()-f.k, so no tick has retired the tubes from the one
+	// ending at (Tlen-1,query.Len()-f.k) on. Starting the flush at that tube visits every
+	// tube that is still live under its own index before its slot comes round again.
+	diagFrom := f.diagIndex(f.target.Len()-1, query.Len()-f.k) - f.maxError
 	diagTo := f.diagIndex(0, query.Len()-1) + tubeWidth
 
 	tubeFrom := f.tubeIndex(diagFrom)
